@@ -579,6 +579,24 @@ func HTMLDoc(r *rand.Rand) Doc {
 			d.sb.WriteString(Text(r, 5))
 		}
 	}
+	if r.Intn(20) == 0 {
+		// counter-style reference graphs (fallback / extends chains, with cycles) actually used by list markers
+		names := []string{"ga", "gb", "gc"}
+		var rules []string
+		for _, n := range names {
+			sys := Pick(r, []string{"fixed", "fixed 2", "cyclic", "numeric", "alphabetic", "additive", "symbolic", "extends " + Pick(r, names), "extends decimal"})
+			body := "system: " + sys + "; "
+			if strings.HasPrefix(sys, "additive") {
+				body += `additive-symbols: 2 "B", 1 "A"; `
+			} else if !strings.HasPrefix(sys, "extends") {
+				body += Pick(r, []string{`symbols: "x"; `, `symbols: "x" "y"; `, `symbols: "0" "1"; `})
+			}
+			body += Pick(r, []string{"", "range: 1 2; ", "range: infinite 1; ", "pad: 3 \"0\"; "})
+			body += "fallback: " + Pick(r, append(names, "decimal", "nope")) + ";"
+			rules = append(rules, "@counter-style "+n+" { "+body+" }")
+		}
+		d.sb.WriteString("<style>" + strings.Join(rules, " ") + "</style><ol style=\"list-style-type: " + Pick(r, names) + "\" start=\"" + Pick(r, []string{"1", "0", "-2", "5"}) + "\"><li>a</li><li>b</li><li>c</li><li>d</li></ol><p style=\"counter-reset: q 7\">x<span style=\"content: counter(q, " + Pick(r, names) + ")\"></span><q style=\"quotes: none\"></q></p><p class=\"cs\">y</p><style>.cs::before { content: counter(q, " + Pick(r, names) + ") counters(q, \".\", " + Pick(r, names) + ") }</style>")
+	}
 	if r.Intn(10) != 0 {
 		d.sb.WriteString("</body></html>")
 	}
